@@ -67,6 +67,16 @@ def share_rows(game):
 
 
 def op_solve(c):
+    if c.get("debug"):
+        # the command line's --log_level DEBUG: the solver's loops then run their logging branches as well
+        import logging
+        root = logging.getLogger()
+        old = root.level
+        root.setLevel(logging.DEBUG)
+        try:
+            return op_solve(dict(c, debug=False))
+        finally:
+            root.setLevel(old)
     game = dec(c["game"])
     if c.get("share"):
         game = share_rows(game)
